@@ -265,3 +265,114 @@ func fieldOwnerAny(p *Prog, f *types.Var) types.Type {
 	ownerAnyCache[f] = nil
 	return nil
 }
+
+// errUse classifies what happens to the error a call returns.
+type errDrop struct {
+	Fn    *ssa.Function
+	Call  ssa.CallInstruction
+	Kind  string // "discarded" (no result taken), "unread" (taken, never read)
+	Calee string
+}
+
+var errorType = types.Universe.Lookup("error").Type()
+
+// droppedErrors lists, in fn, the calls whose error result is never read.
+func droppedErrors(fn *ssa.Function) []errDrop {
+	var out []errDrop
+	realRefs := func(v ssa.Value) int {
+		rs := v.Referrers()
+		if rs == nil {
+			return 0
+		}
+		n := 0
+		for _, r := range *rs {
+			if _, dbg := r.(*ssa.DebugRef); dbg {
+				continue
+			}
+			n++
+		}
+		return n
+	}
+	for _, b := range fn.Blocks {
+		for _, in := range b.Instrs {
+			ci, ok := in.(ssa.CallInstruction)
+			if !ok {
+				continue
+			}
+			sig := ci.Common().Signature()
+			res := sig.Results()
+			ei := -1
+			for i := 0; i < res.Len(); i++ {
+				if types.Identical(res.At(i).Type(), errorType) {
+					ei = i
+				}
+			}
+			if ei < 0 {
+				continue
+			}
+			name := "?"
+			if g := ci.Common().StaticCallee(); g != nil {
+				name = funcName(g)
+			} else if ci.Common().IsInvoke() {
+				name = "invoke " + ci.Common().Method.FullName()
+			} else if fl, _ := loadedField(stripConv(ci.Common().Value)); fl != nil {
+				name = "field " + fl.Name()
+			} else {
+				name = "func value"
+			}
+			cl, isCall := in.(*ssa.Call)
+			if !isCall {
+				// go / defer: the error cannot be read
+				out = append(out, errDrop{fn, ci, "discarded (" + strings.ToLower(fmt.Sprintf("%T", in)[5:]) + ")", name})
+				continue
+			}
+			if res.Len() == 1 {
+				if realRefs(cl) == 0 {
+					out = append(out, errDrop{fn, ci, "discarded", name})
+				}
+				continue
+			}
+			found := false
+			unread := false
+			if rs := cl.Referrers(); rs != nil {
+				for _, r := range *rs {
+					if ex, ok := r.(*ssa.Extract); ok && ex.Index == ei {
+						found = true
+						if realRefs(ex) == 0 {
+							unread = true
+						}
+					}
+				}
+			}
+			if !found {
+				out = append(out, errDrop{fn, ci, "discarded", name})
+			} else if unread {
+				out = append(out, errDrop{fn, ci, "unread", name})
+			}
+		}
+	}
+	return out
+}
+
+func init() {
+	explorations["errs"] = func(p *Prog) {
+		n := 0
+		byCallee := map[string]int{}
+		for _, f := range p.ScopeFuncs() {
+			for _, d := range droppedErrors(f) {
+				n++
+				byCallee[d.Calee]++
+				fmt.Printf("%-10s %-40s %-60s %s\n", d.Kind, p.InstrPos(d.Call), funcName(f), d.Calee)
+			}
+		}
+		fmt.Println("dropped:", n)
+		var ks []string
+		for k := range byCallee {
+			ks = append(ks, k)
+		}
+		sort.Slice(ks, func(i, j int) bool { return byCallee[ks[i]] > byCallee[ks[j]] })
+		for _, k := range ks {
+			fmt.Printf("  %4d %s\n", byCallee[k], k)
+		}
+	}
+}
